@@ -1,5 +1,7 @@
 //! Shared machinery: helper processes, strict minidump decoder, ELF kit,
 //! target program driver, reference models.
+pub mod dest;
 pub mod dumper;
 pub mod helpers;
 pub mod layout;
+pub mod md;
